@@ -11,6 +11,8 @@ package sessions
 // exactly this session id. Rely (guaranteed by addJarToCache, the only writer): cache values are cookie jars.
 //@ func (*Cache).cachedCookieJar props(C10,C07)
 //@   local c recv 0 0
+//@   local err result 0 1
+//@   local jar result 0 0
 //@   local sessionID param 0 0
 //@   requires c != nil && c.cache != nil && !held(c.mu)
 //@   assigns ghost lruHas[c.cache], ghost lruEv[c.cache]
